@@ -20,5 +20,10 @@ class ReadonlyUnpack(C19.PackUnpack):
     canary_case = {"k0": "rw", "k1": "imm", "mode": "rw"}
 
 
+def extra_checks(rep, tier):
+    from contracts import grid_dirnode
+    grid_dirnode.grid_check(rep, tier, "C18")
+
+
 def contracts(tier):
     return [ReadonlyUnpack(), C19.EncryptDecrypt()] + [c for c in C16.contracts(tier) if type(c).__name__ in ("NodeCache", "Attenuate")]
